@@ -99,7 +99,8 @@ class Registry(object):
         self.externals[dotted] = c
         return c
 
-    def cls(self, name, pyclasses=(), **fields):
+    def cls(self, _clsname, pyclasses=(), **fields):
+        name = _clsname
         self.classes.setdefault(name, {}).update(fields)
         for p in pyclasses:
             self.pyclass[p] = name
